@@ -170,6 +170,32 @@ def run(res, tier, build_ok):
                           {"class": c["cls"], "args": shown, "observed": obs, "expected": want})
         elif ri != "ok %s %d" % want:
             res.tie_break("Xfer.iscsiXfer disagrees with ISCSIDevice.execute", {"model": ri, "implementation": obs})
+    # ---- through the facade, against a device whose answer announces more data than fits: at every send the data-in
+    #      buffer is the one the CDB announces (a buffer regrown for a second attempt under the old CDB is not)
+    from props import c13
+    bycls = {}
+    for c in data["commands"]:
+        key = c["cls"]
+        if c["module"].endswith("spc4"):
+            key = "ExtendedCopy4"
+        if c["module"].endswith("spc5"):
+            key = "ExtendedCopy5"
+        bycls[key] = c
+    for ob in c13.oversubscribed_runs(data, std, sets, rng, bycls):
+        fa = [f for f in ob["std"]["fields"] if f["kind"] == "arg" and f["arg"] in ("alloclen", "alloc_len")]
+        if not fa:
+            continue
+        res.case(("facade-oversubscribed", ob["method"], ob["fill"], tuple(sorted(ob["args"].items(), key=str))),
+                 {"method": ob["method"], "args": ob["args"], "fill": ob["fill"], "sends": len(ob["sends"])})
+        res.count("facade call, device announces more than fits")
+        for cdb, n_in, n_out in ob["sends"]:
+            announced = cmds.std_field_value(bytearray(cdb), fa[0])
+            if announced != n_in:
+                res.violation("facade=%s cdb announces" % ob["method"],
+                              "SCSI.%s hands the device a %d-byte data-in buffer under a CDB announcing %d (%s at byte %d)" % (
+                                  ob["method"], n_in, announced, fa[0]["name"], fa[0]["byte"]),
+                              {"method": ob["method"], "args": ob["args"], "fill": ob["fill"], "cdb": cdb.hex(), "datain_len": n_in})
+                break
     # ---- "for every command": also for one that is inspected / executed only after other commands have been built.
     #      Pairs of the same class with different transfer sizes, built back to back, buffers looked at afterwards.
     for c in data["commands"]:
